@@ -60,6 +60,9 @@ pub struct Project {
     pub clone_padded: bool,
     /// dummy declarations appended at the end of the files (varies symbol-table sizes)
     pub dummy_decls: usize,
+    /// enum literals qualified through an alias of the enum (`Shade#Red`): the analysis
+    /// accepts them, the runtime compiler rejects them ("invalid typed literal")
+    pub alias_literals: usize,
 }
 
 struct Model {
@@ -171,7 +174,27 @@ struct FbPlan {
 
 struct StructPlan {
     sym: usize,
+    /// INT fields
     fields: Vec<usize>,
+    /// a field whose type is an earlier struct of the project: (field, struct index)
+    nested: Option<(usize, usize)>,
+    is_union: bool,
+    file: usize,
+    clone: bool,
+}
+
+/// Other declarations of a TYPE block: aliases (of the enum, of a struct, of INT, of another
+/// alias) and fillers (subrange, array type).
+#[derive(Clone)]
+struct AliasPlan {
+    sym: usize,
+    /// what is written after the colon: a symbol (enum, struct, alias) or plain text
+    target_sym: Option<usize>,
+    target_text: String,
+    /// the enum / struct this alias finally names
+    enum_idx: Option<usize>,
+    struct_idx: Option<usize>,
+    is_int: bool,
     file: usize,
     clone: bool,
 }
@@ -192,6 +215,13 @@ struct ProgPlan {
     fb_insts: Vec<(usize, usize)>,
     struct_vars: Vec<(usize, usize)>,
     enum_vars: Vec<(usize, usize)>,
+    /// arrays of structs: (variable, struct index)
+    arr_vars: Vec<(usize, usize)>,
+    /// the type name written in the declaration of a struct / enum variable (the type itself
+    /// or one of its aliases): (variable, type symbol)
+    var_types: Vec<(usize, usize)>,
+    /// variables of an alias of INT
+    int_alias_vars: Vec<(usize, usize)>,
     file: usize,
 }
 
@@ -210,6 +240,8 @@ struct Em<'a> {
     occs: Vec<Occ>,
     m: &'a Model,
     case_variants: bool,
+    /// enum literals written with an alias of the enum as qualifier (`Shade#Red`)
+    alias_literals: usize,
 }
 
 impl<'a> Em<'a> {
@@ -254,6 +286,8 @@ struct Env {
     insts: Vec<(usize, usize)>,
     /// (struct variable symbol, struct index)
     svars: Vec<(usize, usize)>,
+    /// arrays of structs readable here
+    avars: Vec<(usize, usize)>,
 }
 
 struct Gen<'a> {
@@ -302,7 +336,7 @@ impl<'a> Gen<'a> {
         let w_bin = if depth < 2 { 4 } else { 0 };
         let w_fn = if depth < 2 && !env.funcs.is_empty() { 3 } else { 0 };
         let w_out = if env.insts.iter().any(|(_, f)| !self.fbs[*f].outputs.is_empty()) { 2 } else { 0 };
-        let w_fld = if env.svars.is_empty() { 0 } else { 2 };
+        let w_fld = if env.svars.is_empty() && env.avars.is_empty() { 0 } else { 3 };
         let w_meth = if depth < 2 && env.insts.iter().any(|(_, f)| !self.fbs[*f].methods.is_empty()) { 2 } else { 0 };
         let w_std = if depth < 2 { 3 } else { 0 };
         match r.weighted(&[2, w_var, w_bin, w_fn, w_out, w_fld, w_meth, w_std]) {
@@ -330,11 +364,26 @@ impl<'a> Gen<'a> {
                 em.id(r, o, "member");
             }
             5 => {
-                let (sv, s) = *r.choose(&env.svars);
-                let fld = *r.choose(&self.structs[s].fields);
+                // field read: plain, through a nested struct field, or of an array element
+                let use_arr = !env.avars.is_empty() && (env.svars.is_empty() || r.chance(1, 3));
+                let (sv, s) = if use_arr { *r.choose(&env.avars) } else { *r.choose(&env.svars) };
                 em.id(r, sv, "use");
+                if use_arr {
+                    em.t(&format!("[{}]", r.pick(3)));
+                }
                 em.t(".");
-                em.id(r, fld, "field");
+                match self.structs[s].nested {
+                    Some((nf, ns)) if r.chance(1, 3) => {
+                        em.id(r, nf, "field");
+                        em.t(".");
+                        let fld = *r.choose(&self.structs[ns].fields);
+                        em.id(r, fld, "field");
+                    }
+                    _ => {
+                        let fld = *r.choose(&self.structs[s].fields);
+                        em.id(r, fld, "field");
+                    }
+                }
             }
             7 => {
                 // standard function call: a name that no project symbol binds
@@ -485,19 +534,79 @@ pub fn generate(r: &mut Reader) -> Project {
             clone: false,
         });
     }
-    let mut structs = Vec::new();
-    if r.chance(2, 3) {
+    // one file for all TYPE blocks (the region of file 0 in clone mode)
+    let types_file = if clone_mode { 0 } else { r.pick(nfiles) };
+    if let Some(e) = enums.last_mut() {
+        e.file = types_file;
+    }
+    let mut structs: Vec<StructPlan> = Vec::new();
+    for si in 0..r.weighted(&[1, 3, 3, 2]) {
         let sym = m.declare(r, global, TOP_POOL, "struct_type");
         let sc = m.scope(None, "struct");
         let n = 1 + r.pick(3);
-        let fields = (0..n).map(|_| m.declare(r, sc, VAR_POOL, "field")).collect();
-        let file = r.pick(nfiles);
-        structs.push(StructPlan {
+        // the field pool is small on purpose: the structs of a project share field names
+        let fields: Vec<usize> = (0..n).map(|_| m.declare(r, sc, &VAR_POOL[..6], "field")).collect();
+        let is_union = si > 0 && r.chance(1, 5);
+        let nested = if si > 0 && !is_union && r.chance(1, 2) {
+            let target = r.pick(si);
+            if structs[target].is_union {
+                None
+            } else {
+                // often a name that the inner struct uses as well
+                Some((m.declare(r, sc, &VAR_POOL[..6], "field"), target))
+            }
+        } else {
+            None
+        };
+        structs.push(StructPlan { sym, fields, nested, is_union, file: types_file, clone: false });
+    }
+    const ALIAS_POOL: &[&str] = &["Shade", "Tint", "Alias", "MyInt", "Rng", "Ary", "T2", "val", "x"];
+    let mut aliases: Vec<AliasPlan> = Vec::new();
+    for _ in 0..r.weighted(&[2, 3, 3, 2]) {
+        let what = r.weighted(&[if enums.is_empty() { 0 } else { 4 }, if structs.is_empty() { 0 } else { 3 }, 2, 1, 1]);
+        let sym = m.declare(r, global, ALIAS_POOL, "alias_type");
+        let mut a = AliasPlan {
             sym,
-            fields,
-            file: if clone_mode { 0 } else { file },
+            target_sym: None,
+            target_text: String::new(),
+            enum_idx: None,
+            struct_idx: None,
+            is_int: false,
+            file: types_file,
             clone: false,
-        });
+        };
+        match what {
+            0 => {
+                // alias of the enum, or of an earlier alias of it (chain)
+                let earlier: Vec<usize> = aliases.iter().filter(|x| x.enum_idx.is_some()).map(|x| x.sym).collect();
+                a.enum_idx = Some(0);
+                a.target_sym = Some(if !earlier.is_empty() && r.chance(1, 2) { *r.choose(&earlier) } else { enums[0].sym });
+            }
+            1 => {
+                let candidates: Vec<usize> = (0..structs.len()).filter(|i| !structs[*i].is_union).collect();
+                if candidates.is_empty() {
+                    a.is_int = true;
+                    a.target_text = "INT".into();
+                } else {
+                    let si = *r.choose(&candidates);
+                    let earlier: Vec<usize> = aliases.iter().filter(|x| x.struct_idx == Some(si)).map(|x| x.sym).collect();
+                    a.struct_idx = Some(si);
+                    a.target_sym = Some(if !earlier.is_empty() && r.chance(1, 2) { *r.choose(&earlier) } else { structs[si].sym });
+                }
+            }
+            2 => {
+                a.is_int = true;
+                let earlier: Vec<usize> = aliases.iter().filter(|x| x.is_int).map(|x| x.sym).collect();
+                if !earlier.is_empty() && r.chance(1, 2) {
+                    a.target_sym = Some(*r.choose(&earlier));
+                } else {
+                    a.target_text = "INT".into();
+                }
+            }
+            3 => a.target_text = "INT (0..100)".into(),
+            _ => a.target_text = "ARRAY[0..3] OF INT".into(),
+        }
+        aliases.push(a);
     }
 
     let ns_first_file = r.pick(nfiles);
@@ -609,7 +718,29 @@ pub fn generate(r: &mut Reader) -> Project {
             let sc = m.scope(None, "struct");
             let old_fields = structs[i].fields.clone();
             let fields = old_fields.iter().map(|f| clone_sym(&mut m, &mut map, global, *f, sc, k)).collect();
-            structs.push(StructPlan { sym, fields, file: k, clone: true });
+            let nested = structs[i].nested.map(|(f, target)| {
+                let nf = clone_sym(&mut m, &mut map, global, f, sc, k);
+                // the clone of the target struct: same position among the clones of this round
+                let target_sym = map[structs[target].sym].unwrap();
+                let ti = structs.iter().position(|x| x.sym == target_sym).unwrap();
+                (nf, ti)
+            });
+            let is_union = structs[i].is_union;
+            structs.push(StructPlan { sym, fields, nested, is_union, file: k, clone: true });
+        }
+        for i in 0..aliases.len() {
+            if aliases[i].clone {
+                continue;
+            }
+            let sym = clone_sym(&mut m, &mut map, global, aliases[i].sym, global, k);
+            let mut a = aliases[i].clone();
+            a.sym = sym;
+            a.target_sym = a.target_sym.map(|t| map[t].unwrap());
+            a.enum_idx = a.enum_idx.map(|_| enums.iter().position(|e| e.sym == map[enums[0].sym].unwrap()).unwrap());
+            a.struct_idx = a.struct_idx.map(|si| structs.iter().position(|x| x.sym == map[structs[si].sym].unwrap()).unwrap());
+            a.file = k;
+            a.clone = true;
+            aliases.push(a);
         }
         for i in 0..funcs.len() {
             if funcs[i].clone || funcs[i].shared {
@@ -688,16 +819,38 @@ pub fn generate(r: &mut Reader) -> Project {
                 fb_insts.push((m.declare(r, scope, VAR_POOL, "fb_instance"), fi));
             }
         }
+        let prog_file = r.pick(nfiles);
         let mut struct_vars = Vec::new();
+        let mut arr_vars = Vec::new();
+        let mut var_types = Vec::new();
+        let mut int_alias_vars = Vec::new();
         for si in 0..structs.len() {
-            if r.chance(3, 4) {
-                struct_vars.push((m.declare(r, scope, VAR_POOL, "struct_var"), si));
+            if r.chance(2, 3) {
+                let v = m.declare(r, scope, VAR_POOL, "struct_var");
+                struct_vars.push((v, si));
+                let names: Vec<usize> = aliases.iter().filter(|a| a.struct_idx == Some(si)).map(|a| a.sym).collect();
+                let ty = if !names.is_empty() && r.chance(1, 2) { *r.choose(&names) } else { structs[si].sym };
+                var_types.push((v, ty));
+            }
+            // arrays of a struct declared in another file are not analysed ("field access
+            // requires struct"): only next to the type
+            if !structs[si].is_union && structs[si].file == prog_file && r.chance(1, 3) {
+                arr_vars.push((m.declare(r, scope, VAR_POOL, "struct_array_var"), si));
             }
         }
         let mut enum_vars = Vec::new();
         for ei in 0..enums.len() {
-            if r.chance(3, 4) {
-                enum_vars.push((m.declare(r, scope, VAR_POOL, "enum_var"), ei));
+            for _ in 0..r.weighted(&[1, 3, 1]) {
+                let v = m.declare(r, scope, VAR_POOL, "enum_var");
+                enum_vars.push((v, ei));
+                let names: Vec<usize> = aliases.iter().filter(|a| a.enum_idx == Some(ei)).map(|a| a.sym).collect();
+                let ty = if !names.is_empty() && r.chance(1, 2) { *r.choose(&names) } else { enums[ei].sym };
+                var_types.push((v, ty));
+            }
+        }
+        for a in aliases.iter().filter(|a| a.is_int) {
+            if r.chance(1, 2) {
+                int_alias_vars.push((m.declare(r, scope, VAR_POOL, "int_alias_var"), a.sym));
             }
         }
         progs.push(ProgPlan {
@@ -709,7 +862,10 @@ pub fn generate(r: &mut Reader) -> Project {
             fb_insts,
             struct_vars,
             enum_vars,
-            file: r.pick(nfiles),
+            arr_vars,
+            var_types,
+            int_alias_vars,
+            file: prog_file,
         });
     }
 
@@ -741,6 +897,7 @@ pub fn generate(r: &mut Reader) -> Project {
         occs: Vec::new(),
         m: &m,
         case_variants,
+        alias_literals: 0,
     };
     let g = Gen {
         funcs: &funcs,
@@ -751,43 +908,78 @@ pub fn generate(r: &mut Reader) -> Project {
     // template-clone mode: starts of the items of the region of file 0
     let mut item_starts: Vec<usize> = Vec::new();
 
-    // types
-    for e in &enums {
-        if e.clone {
-            continue;
+    // types: multi-declaration TYPE blocks (enum, structs/unions, aliases, fillers mixed)
+    {
+        #[derive(Clone, Copy)]
+        enum Item {
+            E(usize),
+            S(usize),
+            A(usize),
         }
-        em.cur = e.file;
-        if clone_mode {
-            item_starts.push(em.files[0].len());
-        }
-        em.t("TYPE\n    ");
-        em.decl(e.sym);
-        em.t(" : (");
-        for (i, v) in e.values.iter().enumerate() {
-            if i > 0 {
-                em.t(", ");
+        let mut items: Vec<Item> = Vec::new();
+        items.extend((0..enums.len()).filter(|i| !enums[*i].clone).map(Item::E));
+        items.extend((0..structs.len()).filter(|i| !structs[*i].clone).map(Item::S));
+        items.extend((0..aliases.len()).filter(|i| !aliases[*i].clone).map(Item::A));
+        let mut open = false;
+        for (n, it) in items.iter().enumerate() {
+            em.cur = types_file;
+            if !open || r.chance(1, 3) {
+                if open {
+                    em.t("END_TYPE\n\n");
+                }
+                if clone_mode {
+                    item_starts.push(em.files[0].len());
+                }
+                em.t("TYPE\n");
+                open = true;
             }
-            em.decl(*v);
+            em.t("    ");
+            match *it {
+                Item::E(i) => {
+                    let e = &enums[i];
+                    em.decl(e.sym);
+                    em.t(" : (");
+                    for (j, v) in e.values.iter().enumerate() {
+                        if j > 0 {
+                            em.t(", ");
+                        }
+                        em.decl(*v);
+                    }
+                    em.t(");\n");
+                }
+                Item::S(i) => {
+                    let st = &structs[i];
+                    em.decl(st.sym);
+                    em.t(if st.is_union { " : UNION\n" } else { " : STRUCT\n" });
+                    for f in &st.fields {
+                        em.t("        ");
+                        em.decl(*f);
+                        em.t(" : INT;\n");
+                    }
+                    if let Some((nf, target)) = st.nested {
+                        em.t("        ");
+                        em.decl(nf);
+                        em.t(" : ");
+                        em.id(r, structs[target].sym, "type_ref");
+                        em.t(";\n");
+                    }
+                    em.t(if st.is_union { "    END_UNION;\n" } else { "    END_STRUCT;\n" });
+                }
+                Item::A(i) => {
+                    let a = &aliases[i];
+                    em.decl(a.sym);
+                    em.t(" : ");
+                    match a.target_sym {
+                        Some(t) => em.id(r, t, "type_ref"),
+                        None => em.t(&a.target_text),
+                    }
+                    em.t(";\n");
+                }
+            }
+            if n + 1 == items.len() {
+                em.t("END_TYPE\n\n");
+            }
         }
-        em.t(");\nEND_TYPE\n\n");
-    }
-    for s in &structs {
-        if s.clone {
-            continue;
-        }
-        em.cur = s.file;
-        if clone_mode {
-            item_starts.push(em.files[0].len());
-        }
-        em.t("TYPE\n    ");
-        em.decl(s.sym);
-        em.t(" : STRUCT\n");
-        for f in &s.fields {
-            em.t("        ");
-            em.decl(*f);
-            em.t(" : INT;\n");
-        }
-        em.t("    END_STRUCT;\nEND_TYPE\n\n");
     }
 
     // functions (function i may call functions j < i that are visible and not namespaced
@@ -1052,18 +1244,26 @@ pub fn generate(r: &mut Reader) -> Project {
             }
             em.t(";\n");
         }
-        for (sv, si) in &p.struct_vars {
+        for (v, _) in p.struct_vars.iter().chain(&p.enum_vars) {
+            let ty = p.var_types.iter().find(|(x, _)| x == v).map(|(_, t)| *t).unwrap();
             em.t("    ");
-            em.decl(*sv);
+            em.decl(*v);
             em.t(" : ");
+            em.id(r, ty, "type_ref");
+            em.t(";\n");
+        }
+        for (av, si) in &p.arr_vars {
+            em.t("    ");
+            em.decl(*av);
+            em.t(" : ARRAY[0..2] OF ");
             em.id(r, structs[*si].sym, "type_ref");
             em.t(";\n");
         }
-        for (ev, ei) in &p.enum_vars {
+        for (iv, ty) in &p.int_alias_vars {
             em.t("    ");
-            em.decl(*ev);
+            em.decl(*iv);
             em.t(" : ");
-            em.id(r, enums[*ei].sym, "type_ref");
+            em.id(r, *ty, "type_ref");
             em.t(";\n");
         }
         em.t("END_VAR\n");
@@ -1096,12 +1296,18 @@ pub fn generate(r: &mut Reader) -> Project {
             .filter(|(i, _)| m.visible(p.scope, *i))
             .collect();
         env.svars = p.struct_vars.iter().copied().filter(|(s, _)| m.visible(p.scope, *s)).collect();
+        env.avars = p.arr_vars.iter().copied().filter(|(s, _)| m.visible(p.scope, *s)).collect();
+        // variables of an alias of INT are ordinary INT variables
+        let int_alias: Vec<usize> =
+            p.int_alias_vars.iter().map(|(v, _)| *v).filter(|v| m.visible(p.scope, *v)).collect();
+        env.vars.extend(int_alias.iter().copied());
         let writable: Vec<usize> = p
             .externals
             .iter()
             .chain(&p.locals)
             .copied()
             .filter(|v| m.visible(p.scope, *v))
+            .chain(int_alias.iter().copied())
             .collect();
         let evars: Vec<(usize, usize)> = p.enum_vars.iter().copied().filter(|(e, _)| m.visible(p.scope, *e)).collect();
         let bool_in = p.io[2];
@@ -1168,6 +1374,9 @@ pub fn generate(r: &mut Reader) -> Project {
                 3 => {
                     let (ev, ei) = *r.choose(&evars);
                     let e = &enums[ei];
+                    let quals: Vec<usize> = std::iter::once(e.sym)
+                        .chain(aliases.iter().filter(|a| a.enum_idx == Some(ei)).map(|a| a.sym))
+                        .collect();
                     let v1 = *r.choose(&e.values);
                     let v2 = *r.choose(&e.values);
                     em.t("    IF ");
@@ -1176,14 +1385,30 @@ pub fn generate(r: &mut Reader) -> Project {
                     } else {
                         em.id(r, ev, "use");
                         em.t(" = ");
-                        em.id(r, e.sym, "enum_qual");
+                    {
+                            let q = *r.choose(&quals);
+                            if q == e.sym {
+                                em.id(r, q, "enum_qual");
+                            } else {
+                                em.alias_literals += 1;
+                                em.id(r, q, "alias_qual");
+                            }
+                        }
                         em.t("#");
                         em.id(r, v1, "enum_lit");
                     }
                     em.t(" THEN\n        ");
                     em.id(r, ev, "use");
                     em.t(" := ");
-                    em.id(r, e.sym, "enum_qual");
+                    {
+                        let q = *r.choose(&quals);
+                        if q == e.sym {
+                            em.id(r, q, "enum_qual");
+                        } else {
+                            em.alias_literals += 1;
+                            em.id(r, q, "alias_qual");
+                        }
+                    }
                     em.t("#");
                     em.id(r, v2, "enum_lit");
                     em.t(";\n");
@@ -1232,6 +1457,7 @@ pub fn generate(r: &mut Reader) -> Project {
         }
     }
 
+    let alias_literals = em.alias_literals;
     let Em { files, occs, .. } = em;
     Project {
         files,
@@ -1242,6 +1468,7 @@ pub fn generate(r: &mut Reader) -> Project {
         clone_mode,
         clone_padded,
         dummy_decls,
+        alias_literals,
         syms: m.syms,
         scopes: m.scopes,
         occs,
